@@ -22,6 +22,9 @@
   * `pendingRemoved` / `pendingAdded` / `answeredStillPending`: a pending request disappears only by
     being answered, and once answered it is not pending any more (a duplicate answers nothing); new ones
     appear only while a logout operation is being processed, for providers still involved in it;
+  * `sentNotPending`: a LogoutRequest that `do_logout` hands to its caller for the front channel
+    (Redirect / POST) is pending afterwards — in the store the application observes — otherwise its
+    answer could never be consumed and the session could never end;
   * `request`: every LogoutRequest sent names the subject of the operation, goes to
     a provider still involved (one that has not answered yet), and carries the session index of a live
     login of that subject at that provider;
@@ -70,7 +73,7 @@ inductive Fail where
   | leak | expired | loggedIn
   | presence | sources
   | notEnded
-  | pendingRemoved | pendingAdded | answeredStillPending
+  | pendingRemoved | pendingAdded | answeredStillPending | sentNotPending
   | request | status
   | afterSoap (f : Fail)   -- the clause was violated while processing a logout operation in which an
                            -- answer received over SOAP has been counted
@@ -82,6 +85,7 @@ def Fail.name : Fail → String
   | .notEnded => "session-not-ended"
   | .pendingRemoved => "pending-removed-without-answer" | .pendingAdded => "request-not-allowed-pending"
   | .answeredStillPending => "answered-request-still-pending"
+  | .sentNotPending => "front-channel-request-handed-out-but-not-pending"
   | .request => "request-not-allowed-or-not-naming-subject" | .status => "status"
   | .afterSoap f => f.name ++ "-after-soap-answer"
 
@@ -233,6 +237,12 @@ def consumedGoneOk (p : Plan) (after : Obs) : Bool :=
   | some rid => !decide (rid ∈ after.pending)
   | none => true
 
+/-- Every front-channel request handed to the caller is pending afterwards. -/
+def sentPendingOk (out : Out) (after : Obs) : Bool :=
+  match out with
+  | .sent reqs => reqs.all (fun r => decide (r.b = .soap) || decide (r.id ∈ after.pending))
+  | _ => true
+
 def requestOk (cfg : Cfg) (g : Ghost) (p : Plan) (out : Out) : Bool :=
   (emitted out).all (fun r =>
     decide (p.soi = some r.subj) && decide (r.id.step = g.stepNo) && decide (r.id.idp ∈ p.allowed) &&
@@ -279,6 +289,7 @@ def specStep (cs : Bool) (cfg : Cfg) (g : Ghost) (before : Obs) (e : Ev) : List 
     flag (pendingRemovedOk p before e.obs) .pendingRemoved ++
     flag (pendingAddedOk g p before e.obs) (mark .pendingAdded) ++
     flag (consumedGoneOk p e.obs) .answeredStillPending ++
+    flag (sentPendingOk e.out e.obs) .sentNotPending ++
     flag (requestOk cfg g p e.out) (mark .request) ++
     flag (statusOk e.op e.out e.obs) .status ++
     flag (loggedInOk g' e.obs) .loggedIn
